@@ -38,8 +38,21 @@ Para(n) == <<Ev("open", "paragraph", "", ""), Ev("open", "inline", "", ""), Ev("
              Ev("close", "inline", "", ""), Ev("close", "paragraph", "", "")>>
 Heading(l, n) == <<Ev("open", "heading", "", ToString(l)), Ev("open", "inline", "", ""), Ev("leaf", "text", Txt(n), ""),
                    Ev("close", "inline", "", ""), Ev("close", "heading", "", "")>>
+(* a GFM table with c columns (the second one left-aligned) and r body rows; cell texts are unique *)
+Cell(kind, n, r, c) == <<Ev("open", kind, "", IF c = 2 THEN "text-left" ELSE ""), Ev("open", "inline", "", ""),
+                        Ev("leaf", "text", Txt(n) \o "r" \o ToString(r) \o "c" \o ToString(c), ""),
+                        Ev("close", "inline", "", ""), Ev("close", kind, "", "")>>
+RECURSIVE Cells(_, _, _, _)
+Cells(kind, n, r, c) == IF c = 0 THEN <<>> ELSE Cells(kind, n, r, c - 1) \o Cell(kind, n, r, c)
+RowEv(kind, n, r, c) == <<Ev("open", "tr", "", "")>> \o Cells(kind, n, r, c) \o <<Ev("close", "tr", "", "")>>
+RECURSIVE Rows(_, _, _)
+Rows(n, r, c) == IF r = 0 THEN <<>> ELSE Rows(n, r - 1, c) \o RowEv("td", n, r, c)
+TableEv(n, c, r) == <<Ev("open", "table", "", ""), Ev("open", "thead", "", "")>> \o RowEv("th", n, 0, c) \o <<Ev("close", "thead", "", "")>>
+                    \o (IF r = 0 THEN <<>> ELSE <<Ev("open", "tbody", "", "")>> \o Rows(n, r, c) \o <<Ev("close", "tbody", "", "")>>)
+                    \o <<Ev("close", "table", "", "")>>
 LeafEvents(k, n) ==
   CASE k = "para" -> Para(n)
+    [] k = "tab10" -> TableEv(n, 1, 0) [] k = "tab21" -> TableEv(n, 2, 1) [] k = "tab22" -> TableEv(n, 2, 2) [] k = "tab31" -> TableEv(n, 3, 1)
     [] k = "h1" -> Heading(1, n) [] k = "h2" -> Heading(2, n) [] k = "h3" -> Heading(3, n) [] k = "h4" -> Heading(4, n)
     [] k = "hr" -> <<Ev("leaf", "hr", "", "")>>
     [] k = "code" -> <<Ev("leaf", "code_block", Txt(n) \o "\n", "")>>
